@@ -152,7 +152,15 @@ func c05(e *Env) {
 		f.sendOne(0)
 		req := cl.Reqs[before]
 		ri := f.info[req]
-		ok := w.RunUntil(func() bool { return len(req.Replies) > 0 }, 10*time.Minute)
+		// in a third of the cases the client has a second, plain request in flight at the same time
+		// (written right behind the first): each request walks its own plan, whatever the other does
+		var companion *world.ClientReq
+		if c.Choose("companion", 3) == 2 {
+			tok2 := w.NewToken()
+			companion = cl.Send("query", tok2, world.QueryMsg("SELECT * FROM ks.t WHERE k = '"+tok2+"'", primitive.ConsistencyLevelOne), nil)
+			e.Res.Stats["probe.c05.second_request_in_flight"]++
+		}
+		ok := w.RunUntil(func() bool { return len(req.Replies) > 0 && (companion == nil || len(companion.Replies) > 0) }, 10*time.Minute)
 		if w.Stopped() {
 			break
 		}
